@@ -41,38 +41,66 @@ theorem validMeta_iff (k : Key) (version : Option String) :
 
 variable {σ ρ : Type} (prep : Nat → String → σ → PrepResult ρ)
 
+/-! ## the three ways an offer can go -/
+
+theorem step_offer_bad (s : State σ ρ) (k : Key) (version : Option String) (spec : σ) (sys : Option Nat)
+    (c : Bool) (h : validMeta k version = false) :
+    step prep s (.offer k version spec sys c) = (s, .typeError) := by
+  simp [step, h]
+
+theorem step_offer_hit (s : State σ ρ) (k : Key) (version : Option String) (spec : σ) (sys : Option Nat)
+    (c : Bool) (e : Entry σ ρ) (h : validMeta k version = true) (hc : find? s.cache k = some e)
+    (hv : e.version = version.getD "") :
+    step prep s (.offer k version spec sys c) = (s, .returned e.resource e.serial false) := by
+  simp [step, h, hc, hv]
+
+theorem step_offer_miss (s : State σ ρ) (k : Key) (version : Option String) (spec : σ) (sys : Option Nat)
+    (c : Bool) (h : validMeta k version = true)
+    (hd : ∀ e, find? s.cache k = some e → e.version ≠ version.getD "") :
+    step prep s (.offer k version spec sys c) =
+      (⟨set s.cache k ⟨spec, prep k.1 k.2 spec, s.calls, version.getD "", sys⟩, s.calls + 1⟩,
+       if c then .raisedCycle (prep k.1 k.2 spec) s.calls else .returned (prep k.1 k.2 spec) s.calls true) := by
+  cases hf : find? s.cache k with
+  | none => simp [step, h, hf]
+  | some e => simp [step, h, hf, hd e hf]
+
+/-- every offer is one of the three -/
+theorem step_offer_cases (s : State σ ρ) (k : Key) (version : Option String) (spec : σ) (sys : Option Nat)
+    (c : Bool) :
+    (validMeta k version = false ∧ step prep s (.offer k version spec sys c) = (s, .typeError)) ∨
+    (∃ e, validMeta k version = true ∧ find? s.cache k = some e ∧ e.version = version.getD "" ∧
+      step prep s (.offer k version spec sys c) = (s, .returned e.resource e.serial false)) ∨
+    (validMeta k version = true ∧ (∀ e, find? s.cache k = some e → e.version ≠ version.getD "") ∧
+      step prep s (.offer k version spec sys c) =
+        (⟨set s.cache k ⟨spec, prep k.1 k.2 spec, s.calls, version.getD "", sys⟩, s.calls + 1⟩,
+         if c then .raisedCycle (prep k.1 k.2 spec) s.calls else .returned (prep k.1 k.2 spec) s.calls true)) := by
+  by_cases h : validMeta k version = true
+  · by_cases hit : ∃ e, find? s.cache k = some e ∧ e.version = version.getD ""
+    · obtain ⟨e, he, hv⟩ := hit
+      exact .inr (.inl ⟨e, h, he, hv, step_offer_hit prep s k version spec sys c e h he hv⟩)
+    · have hd : ∀ e, find? s.cache k = some e → e.version ≠ version.getD "" :=
+        fun e he hv => hit ⟨e, he, hv⟩
+      exact .inr (.inr ⟨h, hd, step_offer_miss prep s k version spec sys c h hd⟩)
+  · have h' : validMeta k version = false := by simpa using h
+    exact .inl ⟨h', step_offer_bad prep s k version spec sys c h'⟩
+
 /-- a quiet operation keeps the entry of `k` -/
 theorem quiet_step (s : State σ ρ) (k : Key) (v : String) (e : Entry σ ρ) (op : Op σ)
     (hq : Quiet k v op) (hc : find? s.cache k = some e) (hver : e.version = v) :
     find? (step prep s op).1.cache k = some e := by
   cases op with
-  | offer k' version spec sys =>
-    simp only [step]
-    split
-    · rename_i hm
-      obtain ⟨hk', w, hw, hw'⟩ := (validMeta_iff k' version).mp hm
-      subst hw
-      rcases hq with hne | heq | hbad
-      · cases hf : find? s.cache k' with
-        | none => simp [hne, hc]
-        | some e' =>
-          simp only []
-          split
-          · exact hc
-          · simp [hne, hc]
-      · by_cases hkk : k' = k
-        · subst hkk
-          cases heq
-          simp [hc, hver]
-        · cases hf : find? s.cache k' with
-          | none => simp [hkk, hc]
-          | some e' =>
-            simp only []
-            split
-            · exact hc
-            · simp [hkk, hc]
-      · rw [hm] at hbad; cases hbad
-    · exact hc
+  | offer k' version spec sys c =>
+    rcases step_offer_cases prep s k' version spec sys c with ⟨_, h⟩ | ⟨e', _, _, _, h⟩ | ⟨hm, hd, h⟩
+    · rw [h]; exact hc
+    · rw [h]; exact hc
+    · rw [h]
+      have hne : k' ≠ k := by
+        rcases hq with hne | heq | hbad
+        · exact hne
+        · intro hkk; subst hkk
+          exact hd e hc (by rw [heq]; exact hver)
+        · rw [hm] at hbad; cases hbad
+      simp [hne, hc]
   | delete k' version =>
     simp only [step]
     cases hf : find? s.cache k' with
@@ -91,6 +119,16 @@ theorem quiet_step (s : State σ ρ) (k : Key) (v : String) (e : Entry σ ρ) (o
         · split
           · exact hc
           · simp [hkk, hc]
+  | deleteMeta k' version =>
+    simp only [step]
+    split
+    · rename_i hm
+      rcases hq with hne | hbad
+      · cases hf : find? s.cache k' with
+        | none => exact hc
+        | some e' => simp [hne, hc]
+      · rw [hm] at hbad; cases hbad
+    · exact hc
   | lookup k' => exact hc
   | systemData k' => exact hc
 
